@@ -233,7 +233,7 @@ def _replay_program(k):
                     out["drift_samples"].append({"program": src, "hist": [[alphabet[a - 1] if a > 0 else ("5 s pass" if a == 0 else "act%d %s" % (c, "Started" if a == -1 else "Finished")), pk] for a, pk, c in p["hist"]],
                                                  "real": [real, rout, ridx, ract], "spec": [spec, sout, sidx, sact]})
             if len(steps) > 1:
-                out["traces"].append({"steps": steps, "origin": "colangsm:%d" % i})
+                out["traces"].append({"steps": steps, "origin": "colangsm:%d" % i, "source": src})
     return out
 
 
